@@ -30,7 +30,7 @@ meta = dict(name=name, property=prop,
             confirmed=dict(demo_exit_with_change=int(rcw), demo_exit_without_change=int(rcwo),
                            tree_tests=tests, tree_tests_with_change=tw.strip(), tree_tests_without_change=two.strip()),
             checks_run=checks.split(), checks_that_caught_it=caught.split(),
-            how_run="tools/keepseed.sh: demo.py run in the sub-agent's scratch worktree with and without the change (git stash); "
+            how_run="tools/keepseed.sh: demo.py run in the sub-agent's scratch worktree with and without the change (git apply -R / git apply); "
                     "the listed tree test files run with PYTHONPATH=<worktree>/src with and without; then tools/seedtest.sh applied "
                     "patch.diff to /repo, ran the quick tier of the listed checks and reverted /repo")
 json.dump(meta, open(out + "/meta.json", "w"), indent=1)
